@@ -766,7 +766,7 @@ func (viso *VirtualISO) Seek(offset int64, whence int) (int64, error) {
 	case io.SeekCurrent:
 		offset += int64(viso.offset)
 	case io.SeekEnd:
-		offset = int64(viso.totalSize) - offset - 1
+		offset += int64(viso.totalSize)
 	default:
 		return 0, syscall.EINVAL
 	}
